@@ -151,9 +151,15 @@ var envTemplates = []string{
 	// several waiters (futures of this program) on ONE pending future: every one of them gets the outcome
 	"(do (def %Px (future (do (sleep 25) (quote %Px)))) (let [w1 (future (deref %Px)) w2 (future (deref %Px)) w3 (future (deref %Px))] [(deref w1) (deref w2) (deref w3) (deref %Px)]))",
 	"(do (def %Pd (future (do (sleep 20) (throw {:why (quote %Pd)})))) (let [w (fn [] (future (try (deref %Pd) (catch e e)))) a (w) b (w)] [(deref a) (deref b) (try (deref %Pd) (catch e e))]))",
+	// DEEP non-tail recursion (legal on its own, well inside the host stack): how deep OTHER evaluations are is none of an
+	// evaluation's business — kept LAST in this list, see envconcDeepTemplate
 	// errors caught while other evaluations run
 	"(do (def %Pq (fn [n acc] (if (< n 1) acc (%Pq (- n 1) (try (throw (+ acc 1)) (catch e e)))))) (%T (%Pq 30 0)))",
+	"(do (def %Pr (fn [n] (if (< n 1) 0 (+ 1 (%Pr (- n 1)))))) (%T (%Pr 9000)))",
 }
+
+// envconcOnly ≥ 0: every program of the case is this template (set from the payload's only=<index>)
+var envconcOnly = -1
 
 // genEnvProgs: the k programs of one case
 func genEnvProgs(r *rng, k int, e EnvType) ([]envProg, error) {
@@ -161,7 +167,7 @@ func genEnvProgs(r *rng, k int, e EnvType) ([]envProg, error) {
 	for i := 0; i < k; i++ {
 		prefix := fmt.Sprintf("p%d_", i)
 		trace := fmt.Sprintf("trace%d!", i)
-		if r.chance(1, 2) {
+		if envconcOnly < 0 && r.chance(1, 2) {
 			g := &progGen{r: r, trace: true, errs: true}
 			ast, _ := g.program(3 + r.intn(2))
 			ast2, defs := renameGlobals(ast, prefix, trace)
@@ -174,6 +180,9 @@ func genEnvProgs(r *rng, k int, e EnvType) ([]envProg, error) {
 			continue
 		}
 		src := envTemplates[r.intn(len(envTemplates))]
+		if envconcOnly >= 0 && envconcOnly < len(envTemplates) {
+			src = envTemplates[envconcOnly]
+		}
 		src = strings.ReplaceAll(strings.ReplaceAll(src, "%P", prefix), "%T", trace)
 		ast, err := lisp.READ(src, nil, e)
 		if err != nil {
